@@ -62,8 +62,9 @@ class FileObj(Value):
                 return default[0]
             raise PyRaise(StopIteration())
         self.lines_taken += 1
-        ctx.event("readline", self.tag)
-        return SU(z3.Const(ctx.fresh(f"{self.tag}.line"), U), str)
+        line = SU(z3.Const(ctx.fresh(f"{self.tag}.line"), U), str)
+        ctx.event("readline", self.tag, line)
+        return line
 
     def iter_model(self, interp):
         return self
